@@ -489,7 +489,7 @@ fn cmd_matches(arg: &str, name: &'static str, short: Option<char>) -> Option<&'s
 
 impl Comp {
     /// this completion should suppress anything else that is not a value
-    fn only_value(&self) -> bool {
+    pub(crate) fn only_value(&self) -> bool {
         match self {
             Comp::Flag { .. } | Comp::Argument { .. } | Comp::Command { .. } => false,
             Comp::Metavariable { is_argument, .. }
